@@ -146,6 +146,25 @@ def run_case(ck, desc):
         if np.any(after != rf1[-1]):
             ck.violation("interpolator-final-after-last-time", {"values": after, "final": rf1[-1]}, desc)
 
+    # the interpolator still reproduces recovery AT THE SIMULATED TIMES when recovery was last asked
+    # for with other report times (same count, and another count) through the method's `time` argument
+    if strictly and nt >= 3:
+        for q in (t + 0.37 * (t[1] - t[0]), np.linspace(t[0], t[-1], nt + 5)[1:]):
+            res5, _, _, _, _, _ = _run(dict(desc, reused=False), t.copy())
+            try:
+                with np.errstate(all="ignore"), warnings.catch_warnings():
+                    warnings.simplefilter("ignore")
+                    res5.recovery_factor(time=q)
+                    at5 = np.asarray(res5.recovery_factor_interpolator()(t), dtype=float)
+                    after5 = float(res5.recovery_factor_interpolator()(t[-1] + 50.0))
+            except Exception as e:  # noqa: BLE001
+                ck.violation("interpolator-at-nodes", {"after": "recovery_factor(time=other report times)", "raised": repr(e), "len_q": len(q), "nt": nt}, desc)
+                continue
+            scale5 = max(float(np.max(np.abs(rf1))), 1e-300)
+            if float(np.max(np.abs(at5 - rf1))) / scale5 > 1e-12 or after5 != rf1[-1]:
+                ck.violation("interpolator-at-nodes", {"after": "recovery_factor(time=other report times)", "max_rel": float(np.max(np.abs(at5 - rf1))) / scale5, "len_q": len(q), "nt": nt}, desc)
+            ck.count("interpolators_checked_after_recovery_with_time_argument")
+
     # interpolator after a run whose recovery is NOT monotone (frac-face pressure rising late)
     if desc["cls"] == "single" and strictly and nt >= 5:
         from vf import tables as _tb
